@@ -148,6 +148,46 @@ def run(tier='quick', seed=0, observer=None, n_goals_override=None):
             errs.append(('export-import', 're-import raises %s: %s' % (type(e).__name__, str(e)[:150])))
         finally:
             context.ctxt = saved
+        if any(cl_ == 'export-import' for cl_, _ in errs):
+            # Is the failure explained by a single line whose OWN sequent does not survive print / parse in the
+            # scope of that line (a polymorphic constant such as {} whose type instance the printed text does not
+            # determine)?  That is the print / parse defect recorded for C07, classified separately; every other
+            # export / re-import failure keeps the plain clause.
+            culprit = None
+            try:
+                for it in all_items(state.prf):
+                    if it.th is None or it.rule == 'variable':
+                        continue
+                    try:
+                        scope = dict(ctx_vars)
+                        scope.update(state.get_vars(it.id))
+                        context.set_context(None, vars=scope)
+                        with global_setting(unicode=False, highlight=False):
+                            txt = printer.print_thm(it.th)
+                        if parser.parse_thm(txt) != it.th:
+                            culprit = txt
+                    except Exception:
+                        culprit = str(it.id)
+                    if culprit is not None:
+                        break
+            except Exception:
+                culprit = None
+            finally:
+                context.ctxt = saved
+            if culprit is None and any('unmatched type variable' in d_ for _, d_ in errs):
+                # a step whose argument is an instantiation with a non-empty TYPE instantiation: the exported text
+                # has no place for it (recorded finding)
+                from kernel.term import Inst as _Inst
+                for it in all_items(state.prf):
+                    as_ = it.args if isinstance(it.args, (tuple, list)) else [it.args]
+                    if any(isinstance(a_, _Inst) and len(a_.tyinst) > 0 for a_ in as_):
+                        errs = [((cl_ + ':type-instantiation-not-exported') if cl_ == 'export-import' else cl_, d_)
+                                for cl_, d_ in errs]
+                        break
+            if culprit is not None:
+                errs = [((cl_ + ':line-not-reparsable') if cl_ == 'export-import' else cl_,
+                         d_ + ' [a line of the state does not survive print / parse on its own: %s]' % culprit[:80])
+                        for cl_, d_ in errs]
         return errs
 
     def report(errs, goal, trace, where):
@@ -156,7 +196,8 @@ def run(tier='quick', seed=0, observer=None, n_goals_override=None):
             if (cl, d) in seen:
                 continue
             seen.add((cl, d))
-            violations.append({'clause': cl, 'detail': d, 'goal': goal, 'steps': list(trace), 'where': where})
+            violations.append({'function': 'server.server.ProofState', 'clause': cl, 'detail': d, 'goal': goal,
+                               'steps': list(trace), 'where': where})
 
     def try_step(state, step):
         """Apply step to a copy. Returns the edited copy or None when the step does not complete."""
@@ -342,6 +383,18 @@ def run(tier='quick', seed=0, observer=None, n_goals_override=None):
                             closed_bool_subterms(it.th.prop, subs)
                     subs = [t for t in subs if all(v.name in allowed for v in t.get_vars())]
                 step[sig] = pr(rng.choice(subs)) if subs else pr(gen_form(1, [a, b]))
+            elif sig == 'var':
+                # induction variable: a variable of the goal of the type the induction theorem is about
+                try:
+                    vT = theory.get_theorem(step['theorem']).concl.arg.T
+                    cands = [v_.name for v_ in state.get_proof_item(gid).th.prop.get_vars() if v_.T == vT]
+                except Exception:
+                    cands = []
+                if not cands:
+                    if exact:
+                        return None
+                    cands = ['x']
+                step['var'] = rng.choice(sorted(cands))
             elif sig == 'name':
                 fresh_counter[0] += 1
                 step['name'] = 'm%d' % fresh_counter[0]
